@@ -1,4 +1,5 @@
 import MqttVerif.Conn.Lemmas.Reconnect
+import MqttVerif.Conn.Lemmas.NoPanicHeld5
 /-!
 # C05 — no peer-controlled input can panic or wedge a connection
 
@@ -119,6 +120,50 @@ def C05_no_panic_full : Prop :=
 theorem C05_no_panic_full_holds : C05_no_panic_full := by
   intro cfg ver hpw h4 hv ops hl
   exact (C05_no_panic_run cfg ver hpw h4 hv ops ((legalSeqNoHeadroom_iff _ _ _).1 hl)).1
+
+/-- stored packets are PUBLISH / PUBREL packets (part of `StoreInv`; used by the C07 / C10 monitor
+    theorems as `StoreNoPubrec` / `StoreNS`) -/
+theorem C05_store_kinds (s : St) (hi : Inv s) : ∀ x ∈ s.store, x.2.kind = .publish ∨ x.2.kind = .pubrel :=
+  fun x hx => (hi.2.1.1 x.1 x.2 hx).2.2.1
+
+/-! ## C06 `stored_id_not_held`: a stored packet keeps its identifier in use
+
+Stated here because it lives on the invariant of this file (the lemma chains of `Props/C06.lean`
+and of this file cannot be imported together).  The contract `Legal` of `C05_no_panic` does NOT
+suffice: it leaves `release id` unrestricted, and an application that releases the identifier of a
+stored packet makes the statement false (`C06_stored_id_held_needs_ownership`).  With the ownership
+rule `Hd.LegalIds` it holds in every reachable state. -/
+
+/-- a sequence of calls each of which respects `Legal` and the ownership rule `Hd.LegalIds` -/
+def LegalSeqIds (cfg : Cfg) : St → List Op → Prop
+  | _, [] => True
+  | s, op :: ops => Legal cfg s op ∧ Hd.LegalIds s op ∧ LegalSeqIds cfg (step cfg s op).s ops
+
+theorem LegalSeqIds.legal {cfg : Cfg} : ∀ {s : St} {ops : List Op}, LegalSeqIds cfg s ops → LegalSeq cfg s ops
+  | _, [], _ => trivial
+  | _, _ :: _, h => ⟨h.1, LegalSeqIds.legal h.2.2⟩
+
+/-- one call: `Held ∧ Disj` (every stored identifier in use; SUBACK / UNSUBACK identifiers disjoint
+    from the QoS wait sets) is kept in the invariant class -/
+theorem C06_stored_id_held_step (cfg : Cfg) (s : St) (op : Op) (hi : Inv s) (hn : s.panic = none)
+    (hh : Hd.HD s) (hl : Legal cfg s op) (hid : Hd.LegalIds s op) : Hd.HD (step cfg s op).s :=
+  Hd.step_w ((good_iff s).2 ⟨hi, hn⟩).1 hh hl hid
+
+theorem held_run {cfg : Cfg} : ∀ (ops : List Op) {s : St}, Good s → StoreRange s → Hd.HD s →
+    LegalSeqIds cfg s ops → Hd.HD (run cfg s ops)
+  | [], _, _, _, h, _ => h
+  | op :: ops, _, hg, hr, h, hl =>
+    held_run ops (step_good hg hr hl.1) (step_range hg hr op) (Hd.step_w hg h hl.1 hl.2.1) hl.2.2
+
+/-- **C06, `stored_id_not_held`** (driver monitor `VIOL sig=C06 stored_id_not_held@<site>`): in every
+    state reachable from a new object by calls that respect `Legal` (the contract of
+    `C05_no_panic_run`: arbitrary peer bytes, any parser with well-formed results) and the
+    ownership rule `Hd.LegalIds`, every stored packet's identifier is in use. -/
+theorem C06_stored_id_held_run (cfg : Cfg) (ver : Nat) (hpw : 1 ≤ cfg.pw) (h4 : cfg.pw ≤ 4)
+    (hv : ver = 0 ∨ ver = 4 ∨ ver = 5) (ops : List Op) (hl : LegalSeqIds cfg (St.init cfg ver) ops) :
+    ∀ x ∈ (run cfg (St.init cfg ver) ops).store, isUsed (run cfg (St.init cfg ver) ops) x.1 = true :=
+  (held_run ops (init_good hpw hv) (init_range hpw h4)
+    ⟨by intro x hx; simp [St.init] at hx, by intro i hi; simp [St.init] at hi⟩ hl).1
 
 /-- **C05, the identifier calls are total**: `acquire`, `register id`, `release id`, `erase id`
     for EVERY `id` (0, out of range, free, in flight) never panic — only the allocator's
@@ -311,5 +356,35 @@ example : Framing.feed Framing.PB.reset [0x10, 10, 0, 4, 77, 81, 84, 84, 4, 2, 0
     ({}, some (.complete 0x10 [0, 4, 77, 81, 84, 84, 4, 2, 0, 0]), []) ∧ 0x10 / 16 = 1 ∧
     totalSize [0, 4, 77, 81, 84, 84, 4, 2, 0, 0].length ≤ noLimit := by
   decide
+
+/-! ### `Legal` alone does not keep stored identifiers in use -/
+
+/-- the walk of `nvOps` up to the stored QoS 2 PUBLISH (id 1), then `release 1`: every call is
+    `Legal`, the invariant holds, nothing panics — and the stored packet's identifier is free.
+    (`release` of an identifier that a stored packet carries violates `Hd.LegalIds`.) -/
+theorem C06_stored_id_held_needs_ownership :
+    LegalSeq nvCfg (St.init nvCfg 5) (nvOps.take 4 ++ [.release 1]) ∧
+    (run nvCfg (St.init nvCfg 5) (nvOps.take 4 ++ [.release 1])).store.map (·.1) = [1] ∧
+    isUsed (run nvCfg (St.init nvCfg 5) (nvOps.take 4 ++ [.release 1])) 1 = false ∧
+    ¬ Hd.LegalIds (run nvCfg (St.init nvCfg 5) (nvOps.take 4)) (.release 1) := by
+  refine ⟨⟨nvOps_legal.1, nvOps_legal.2.1, trivial, nvOps_legal.2.2.2.1, trivial, trivial⟩, by decide, by decide, ?_⟩
+  show ¬ (storeHas 1 _ = false)
+  decide
+
+/-- the hypotheses of `C06_stored_id_held_run` are satisfiable by the same walk without the release:
+    the PUBLISH id 1 was acquired for it and is owned by nothing when it is sent -/
+theorem nvOps_legalIds : LegalSeqIds nvCfg (St.init nvCfg 5) (nvOps.take 5) := by
+  have h := nvOps_legal
+  refine ⟨h.1, ?_, h.2.1, trivial, trivial, trivial, h.2.2.2.1, ?_, h.2.2.2.2.1, trivial, trivial⟩
+  · exact ⟨fun hk => absurd hk (by decide), fun hk => absurd hk (by decide), fun hk => absurd hk (by decide)⟩
+  · refine ⟨fun _ id hid => ?_, fun hk => absurd hk (by decide), fun hk => absurd hk (by decide)⟩
+    have : id = 1 := by simpa [nvPub] using hid.symm
+    subst this
+    unfold Hd.Unowned
+    decide
+
+example : ∀ x ∈ (run nvCfg (St.init nvCfg 5) (nvOps.take 5)).store,
+    isUsed (run nvCfg (St.init nvCfg 5) (nvOps.take 5)) x.1 = true :=
+  C06_stored_id_held_run nvCfg 5 (by decide) (by decide) (by decide) _ nvOps_legalIds
 
 end MqttVerif.Conn
